@@ -104,6 +104,40 @@ def module_names(mod):
     return res
 
 
+_ufunc_tab = None
+
+
+def _ufunc_member(name, member):
+    """numpy.<name>.<member> for a ufunc: the stub declares `<name>: _UFunc_NinX_NoutY[...]`, and that class (numpy/_typing/_ufunc.pyi)
+    lists the members a ufunc object has.  True / False, or None when <name> is not declared as a ufunc."""
+    global _ufunc_tab
+    if _ufunc_tab is None:
+        _ufunc_tab = ({}, {})
+        p = _find_pkg("numpy")
+        try:
+            top = ast.parse(open(os.path.join(p, "__init__.pyi")).read())
+            for st in top.body:
+                if isinstance(st, ast.AnnAssign) and isinstance(st.target, ast.Name) and isinstance(st.annotation, ast.Subscript) and \
+                        isinstance(st.annotation.value, ast.Name) and st.annotation.value.id.startswith("_UFunc_"):
+                    _ufunc_tab[0][st.target.id] = st.annotation.value.id
+            cls = ast.parse(open(os.path.join(p, "_typing", "_ufunc.pyi")).read())
+            base = set()
+            for st in ast.parse(open(os.path.join(p, "__init__.pyi")).read()).body:
+                if isinstance(st, ast.ClassDef) and st.name == "ufunc":
+                    base = {m.name for m in st.body if isinstance(m, ast.FunctionDef)} | \
+                           {m.target.id for m in st.body if isinstance(m, ast.AnnAssign) and isinstance(m.target, ast.Name)}
+            for st in cls.body:
+                if isinstance(st, ast.ClassDef) and st.name.startswith("_UFunc_"):
+                    _ufunc_tab[1][st.name] = base | {m.name for m in st.body if isinstance(m, ast.FunctionDef)} | \
+                        {m.target.id for m in st.body if isinstance(m, ast.AnnAssign) and isinstance(m.target, ast.Name)}
+        except Exception:
+            pass
+    c = _ufunc_tab[0].get(name)
+    if c is None or c not in _ufunc_tab[1]:
+        return None
+    return member in _ufunc_tab[1][c]
+
+
 def exists(libname):
     """True / False (definitely absent) / None (cannot tell) for a dotted library name like numpy.fft.fft"""
     parts = libname.split(".")
@@ -120,6 +154,10 @@ def exists(libname):
             return None
         if attr in names:
             rest = parts[k + 1:]
-            return True if not rest else None  # attributes of classes/ufuncs are not resolved further
+            if len(rest) == 1 and mod == "numpy":
+                u = _ufunc_member(attr, rest[0])
+                if u is not None:
+                    return u
+            return True if not rest else None  # attributes of classes are not resolved further
         return False if auth else None
     return None
